@@ -232,8 +232,7 @@ def parseSrvObs (ts : List String) : Option SrvObs := do
   pure { called := c ≠ 0, saw, enc, acc, stWhere := w, stCode := code, stCls := cls, frames }
 
 def slotsOf (route : String) (cs : List Call) : Compression.Slots :=
-  if route = "c" then Compression.applyConfig Compression.Slots.default (Compression.runCalls cs)
-  else Compression.runCalls cs
+  Compression.configure (route = "d") cs
 
 def handleSrv (ts obs : List String) : String × String :=
   match parseSrv ts with
